@@ -15,6 +15,12 @@
 #include <fcppt/parse/char_set.hpp>
 #include <fcppt/parse/construct.hpp>
 #include <fcppt/parse/float.hpp>
+#include <fcppt/parse/make_lexeme.hpp>
+#include <fcppt/parse/make_success.hpp>
+#include <fcppt/parse/phrase_parse_string.hpp>
+#include <fcppt/parse/make_convert.hpp>
+#include <fcppt/parse/make_convert_if.hpp>
+#include <fcppt/parse/fatal_tag.hpp>
 #include <fcppt/parse/parse_string.hpp>
 #include <fcppt/parse/convert_const.hpp>
 #include <fcppt/parse/grammar.hpp>
@@ -214,6 +220,65 @@ void typed_results()
               return "(" + std::string(fcppt::tuple::get<0>(t).has_value() ? "S(u,u)" : "N") + "," +
                      join_chars(fcppt::tuple::get<1>(t), [](char c) { return ch(c); }) + ")";
             });
+  // a conversion function that reports a FATAL error: like make_fatal, it stops backtracking in every enclosing
+  // alternative, optional and repetition (the error's flag is the callback's, not the combinator's)
+  {
+    auto const fatal_if_b = [](char c) -> p::result<char, std::string> {
+      if (c == 'b')
+        return p::result<char, std::string>{p::error<char>{std::string("no b"), p::fatal_tag{}}};
+      return p::make_success<char>("<" + ch(c) + ">");
+    };
+    check_one("convert_if_fatal_alt", p::make_convert_if(p::char_set{'a', 'b'}, fatal_if_b) | p::make_convert(p::char_{}, [](char c) { return ch(c); }),
+              B(B_ALT, U(U_CONVERT_IF_FATAL, L(L_CS_AB)), L(L_CHAR)), [](std::string const &v) { return v; });
+    check_one("convert_if_fatal_opt", -p::make_convert_if(p::char_set{'a', 'b'}, fatal_if_b) >> *p::char_{},
+              B(B_SEQ, U(U_OPT, U(U_CONVERT_IF_FATAL, L(L_CS_AB))), U(U_REP, L(L_CHAR))), [](auto const &t) {
+                return "(" + (fcppt::tuple::get<0>(t).has_value() ? "S" + fcppt::tuple::get<0>(t).get_unsafe() : std::string("N")) + "," +
+                       join_chars(fcppt::tuple::get<1>(t), [](char c) { return ch(c); }) + ")";
+              });
+    check_one("convert_if_fatal_rep", *p::make_convert_if(p::char_set{'a', 'b'}, fatal_if_b) >> *p::char_{},
+              B(B_SEQ, U(U_REP, U(U_CONVERT_IF_FATAL, L(L_CS_AB))), U(U_REP, L(L_CHAR))), [](auto const &t) {
+                return "(" + join_chars(fcppt::tuple::get<0>(t), [](std::string const &x) { return x; }) + "," +
+                       join_chars(fcppt::tuple::get<1>(t), [](char c) { return ch(c); }) + ")";
+              });
+    // the same three with a conversion function that fails NON-fatally: backtracking goes on
+    auto const fail_if_b = [](char c) -> p::result<char, std::string> {
+      if (c == 'b')
+        return p::result<char, std::string>{p::error<char>{std::string("no b")}};
+      return p::make_success<char>("<" + ch(c) + ">");
+    };
+    check_one("convert_if_alt", p::make_convert_if(p::char_set{'a', 'b'}, fail_if_b) | p::make_convert(p::char_{}, [](char c) { return ch(c); }),
+              B(B_ALT, U(U_CONVERT_IF, L(L_CS_AB)), L(L_CHAR)), [](std::string const &v) { return v; });
+    check_one("convert_if_rep", *p::make_convert_if(p::char_set{'a', 'b'}, fail_if_b) >> *p::char_{},
+              B(B_SEQ, U(U_REP, U(U_CONVERT_IF, L(L_CS_AB))), U(U_REP, L(L_CHAR))), [](auto const &t) {
+                return "(" + join_chars(fcppt::tuple::get<0>(t), [](std::string const &x) { return x; }) + "," +
+                       join_chars(fcppt::tuple::get<1>(t), [](char c) { return ch(c); }) + ")";
+              });
+    // a conversion function that itself runs a string parse (same character type, same thread) while the outer string
+    // parse is in progress: the nested parse decides "contains no b" by parsing the token with *cs{a}
+    auto const nested = [](std::string &&v) -> p::result<char, std::string> {
+      std::string const tok(v);
+      auto const inner = p::parse_string(*p::char_set{'a'}, std::string(tok));
+      if (inner.has_failure())
+        return p::result<char, std::string>{p::error<char>{std::string("inner parse failed")}};
+      return p::make_success<char>("<" + join_chars(v, [](char c) { return ch(c); }) + ">");
+    };
+    check_one("nested_string_parse_in_callback", *p::make_convert_if(p::make_lexeme(+p::char_set{'a', 'b'}), nested) >> *p::char_{},
+              B(B_SEQ, U(U_REP, U(U_CONVERT_IF, U(U_LEXEME, U(U_PLUS, L(L_CS_AB))))), U(U_REP, L(L_CHAR))), [](auto const &t) {
+                return "(" + join_chars(fcppt::tuple::get<0>(t), [](std::string const &x) { return x; }) + "," +
+                       join_chars(fcppt::tuple::get<1>(t), [](char c) { return ch(c); }) + ")";
+              });
+    auto const nested_phrase = [](std::string &&v) -> p::result<char, std::string> {
+      std::string const tok(v);
+      auto const inner = p::phrase_parse_string(*p::char_set{'a'}, " " + tok + " ", p::skipper::space());
+      if (inner.has_failure())
+        return p::result<char, std::string>{p::error<char>{std::string("inner parse failed")}};
+      return p::make_success<char>("<" + join_chars(v, [](char c) { return ch(c); }) + ">");
+    };
+    check_one("nested_phrase_parse_in_callback", p::make_convert_if(p::make_lexeme(+p::char_set{'a', 'b'}), nested_phrase) >> *p::char_{},
+              B(B_SEQ, U(U_CONVERT_IF, U(U_LEXEME, U(U_PLUS, L(L_CS_AB)))), U(U_REP, L(L_CHAR))), [](auto const &t) {
+                return "(" + fcppt::tuple::get<0>(t) + "," + join_chars(fcppt::tuple::get<1>(t), [](char c) { return ch(c); }) + ")";
+              });
+  }
   // failure after partial consumption deep inside a sequence, rescued by an outer alternative
   check_one("deep_rewind", ((p::char_{} >> p::char_{} >> p::literal{'a'}) | (p::char_{} >> p::literal{'b'})) >> *p::char_{},
             B(B_SEQ, B(B_ALT, B(B_SEQ, B(B_SEQ, L(L_CHAR), L(L_CHAR)), L(L_LIT_A)), B(B_SEQ, L(L_CHAR), L(L_LIT_B))), U(U_REP, L(L_CHAR))),
